@@ -250,10 +250,11 @@ def run_seq(acc, rnd, nops, cid):
             gv = None
             if i >= 0 and isinstance(m[i][1], list):
                 plain = [(tt, vv) for it in m[i][1] for tt, vv in it if not isinstance(vv, list)]
-                if any(isinstance(vv, list) and tt == gt for it in m[i][1] for tt, vv in it):
-                    continue  # gtag names a nested group: unspecified
                 if plain and rnd.random() < 0.7:
                     gt, gv = rnd.choice(plain)
+                # judged on the gtag finally used: a plain tag of one item may be a nested group in another item
+                if any(isinstance(vv, list) and tt == gt for it in m[i][1] for tt, vv in it):
+                    continue  # gtag names a nested group: unspecified
             gv = gv if gv is not None else "nope"
             gtf = tagform(gt)
             got = outcome(lambda: walk(c.get_group_by_tag(tf, gtf, gv)))
